@@ -1,6 +1,9 @@
 import LoraVerif.Model.PhyState
 import LoraVerif.Model.Chip
 import LoraVerif.Lemmas.PhyLemmas
+import LoraVerif.Lemmas.PhyHistory
+import LoraVerif.Lemmas.PhyOps126
+import LoraVerif.Lemmas.PhyOps127
 /-!
 # C14 — the PHY driver and the radio chip never disagree about the radio's state
 
@@ -11,14 +14,16 @@ the real `LoRa` by the C14 correspondence, which compares result, transcript and
 (all call sequences up to depth 3/4 × interrupt outcomes × a fault at every I/O step × a drop at
 every `await_irq`).
 
-Proved here for ALL sequences / states / environments:
-* I5 `wrong_mode_refused`, `refused_calls_never_touch_the_chip` (any radio kind, any history);
-* chip-side facts about the tracker (`wake_up_wakes`, `standby_command_standby`, flags monotone);
-* I4 per call: `fail_to_standby_spec` — when the error path reports the radio's own error, the last
-  thing that happened is an executed SetStandby and the driver says `Standby`.
-The three defects the invariants exposed are shown on the pre-fix model (`*_unfixed_counterexample`)
-and absent after the fixes (`*_fixed`).  The inductive proof of I1–I3 over arbitrary histories is
-NOT done: `c14_invariants_partial` states what is proved, the full statement is kept in a comment.
+Proved here for ALL histories (any calls, chip contents and answers, interrupt outcomes, a fault at
+any I/O step and a drop at any `await_irq` of every call), for both chip families and the LoRaWAN
+adapter: `c14_invariants` — I1–I5 hold after every call, by induction over the call list with the
+invariant `Inv` of `Lemmas/PhyInv.lean` (per-call preservation: `Model.Phy.apiStep_inv`,
+`adapterStep_inv`; per-operation obligations: `Sx126x.opsSpec`, `Sx127x.opsSpec`; the tie between
+the proof calculus and the interpreter: `wp_sound`).
+Also: I5 on its own for any radio kind (`wrong_mode_refused`), the error path of I4 with the exact
+transcript suffix (`fail_to_standby_spec126`), chip-side facts about the tracker, and the three
+defects the invariants exposed, shown on the pre-fix model (`*_unfixed_counterexample`) and absent
+after the fixes (`*_fixed`).
 -/
 open Model.Phy Model.Phy.M
 
@@ -306,38 +311,250 @@ theorem init_fixed :
        (init ops126, { fault := some 1 }), (tx ops126 8, { irqDefault := 1 })]).2.startedUnprogrammed = false := by
   decide +kernel
 
-/-! ### what is proved for all histories, and what is not
+/-! ### I1–I5 for all histories, by induction over the call list
 
-FULL STATEMENT (not proved): for every radio kind `rk ∈ {sx126xOps cfg, sx127xOps cfg}`, every
-history `h : List (ApiCall μ × Env)` (any calls, interrupt outcomes, fault and drop positions) started
-after a successful `init`, with `t_i` the tracker state and `d_i` the driver state after call `i`:
-  I1  `t_i.commandedAsleep = false`
-  I2  `¬ t_i.items.covers bringUpItems → d_i.coldStart = true`
-  I3  `t_i.startedUnprogrammed = false`
-  I4  `result_i ∈ {Err TransmitTimeout, Err ReceiveTimeout} ∧ d_{i-1}.radioMode ≠ Receive(Continuous)
-        → t_i.mode = standby ∧ d_i.radioMode = Standby`
-  I5  `modeOk call_i d_{i-1}.radioMode = false → result_i = Err InvalidRadioMode ∧ transcript_i = []`.
-PROVED below for all histories: I5; the error-path half of I4 for both chips (any state, any fault
-position); the chip-side facts the others rest on.  I1–I3 and the call-level composition of I4 are
-established by evaluation only — on every sequence up to depth 3 (quick) / 4 (thorough) × interrupt
-outcomes × a fault at every I/O step × a drop at every await, by the C14 correspondence, which
-evaluates exactly the predicates above on the model run that it has just shown equal to the real
-driver's — and on the pre-fix model the same predicates fail (`*_unfixed_counterexample`). -/
-theorem c14_invariants_partial :
-    -- I5, all radio kinds, all histories
-    (∀ (σ μ : Type) (rk : RadioKindOps σ μ) (h : List (ApiCall μ × Env)) (s : DriverState σ × World),
-      ∀ e ∈ runHistory rk h s, modeOk e.1 e.2.2.2.radioMode = false → e.2.1 = .err .InvalidRadioMode ∧ e.2.2.1 = []) ∧
-    -- I4, the error path, SX126x and SX127x: any state, any scheduled fault
-    (∀ (cfg : Sx126x.Config) (e : RadioError), e = .TransmitTimeout ∨ e = .ReceiveTimeout →
-      ∀ (d : DriverState Unit) (w : World) (n : Needs) (t : ChipTrack), w.log = [] →
-        let r := (failToStandby (sx126xOps cfg) e : M Unit Unit) (d, w)
-        r.1 = .err e → r.2.1.radioMode = .standby ∧ (track .sx126x n t r.2.2.log).mode = .standby) ∧
-    (∀ (cfg : Sx127x.Config) (e : RadioError), e = .TransmitTimeout ∨ e = .ReceiveTimeout →
-      ∀ (d : DriverState Sx127x.Data) (w : World) (n : Needs) (t : ChipTrack), w.log = [] →
-        let r := (failToStandby (sx127xOps cfg) e : M Sx127x.Data Unit) (d, w)
-        r.1 = .err e → r.2.1.radioMode = .standby ∧ (track .sx127x n t r.2.2.log).mode = .standby) :=
-  ⟨fun _ _ rk h s => refused_calls_never_touch_the_chip rk h s,
-   fun cfg e he d w n t hl => i4_standby_after_reported_failure126 cfg e he d w n t hl,
-   fun cfg e he d w n t hl => i4_standby_after_reported_failure127 cfg e he d w n t hl⟩
+The invariant `Inv` (Lemmas/PhyInv.lean) over driver bookkeeping × tracker state:
+  * the tracker's flags are down (I1: no command ever reached a chip that may be asleep; I3: nothing
+    was ever started with a required item unprogrammed since the last configuration loss);
+  * chip possibly asleep (sleep / RX duty cycle) ⇒ `radio_mode` is `Sleep` (or the duty-cycle
+    reception), so that the next `ensure_ready` is the wake-up;
+  * `cold_start` down ⇒ bring-up items, TX parameters and IRQ routing are programmed (I2);
+  * `radio_mode` ∈ {Transmit, Receive, CAD} ⇒ everything that start needs is programmed.
+It holds in the constructor state (`inv_new`), every API call preserves it under every chip answer,
+interrupt outcome, fault position and drop position (`Lemmas/PhyApi.lean`, one lemma per program,
+generic over the radio kind; `Lemmas/PhyOps126/127.lean` discharge the per-operation obligations
+for the SX126x and SX127x models), and it implies I1–I4 for the call's transcript. -/
+
+/-- the state `LoRa::new` builds before it calls `init`: `radio_mode = Sleep`, `cold_start`,
+`calibrate_image` set; the tracker has seen nothing -/
+theorem inv_new {σ : Type} (reg tcxo : Bool) (sb : Items) (rk : σ) (sw : Nat) :
+    Inv reg tcxo sb ({ rk := rk, syncWord := sw } : DriverState σ) {} :=
+  ⟨⟨rfl, rfl⟩, Link.sleep _, fun h => by simp at h, trivial⟩
+
+/-- one executed call of a history: the call, the driver state before, the outcome, the call's
+transcript, the driver state and the tracker state after -/
+structure Rec (σ μ : Type) where
+  call : ApiCall μ
+  before : DriverState σ
+  out : Out ApiResult
+  log : List Ev
+  after : DriverState σ
+  track : ChipTrack
+
+/-- a whole history: the calls with their environments, threaded through `apiStep`; the tracker
+is fed every call's transcript -/
+def runTracked (kind : Kind) (n : Needs) (rk : RadioKindOps σ μ) :
+    List (ApiCall μ × Env) → DriverState σ × World → ChipTrack → List (Rec σ μ)
+  | [], _, _ => []
+  | (c, env) :: rest, s, t =>
+    let r := apiStep rk c env s
+    let t' := track kind n t r.2.2.log
+    ⟨c, s.1, r.1, r.2.2.log, r.2.1, t'⟩ :: runTracked kind n rk rest r.2 t'
+
+/-- I1–I5 of one record -/
+def RecOk (reg tcxo : Bool) (e : Rec σ μ) : Prop :=
+  -- I1
+  e.track.commandedAsleep = false ∧
+  -- I2
+  (e.track.items.covers (baseItems reg tcxo) = false → e.after.coldStart = true) ∧
+  -- I3
+  e.track.startedUnprogrammed = false ∧
+  -- I4
+  (e.out.timeout = true → e.before.radioMode ≠ .receive .continuous →
+    e.track.mode = .standby ∧ e.after.radioMode = .standby) ∧
+  -- I5
+  (modeOk e.call e.before.radioMode = false → e.out = .err .InvalidRadioMode ∧ e.log = [])
+
+/-- the items of I2 are the ones the correspondence driver (Driver/C14.lean) uses -/
+theorem baseItems_eq (reg tcxo : Bool) :
+    baseItems reg tcxo = { (needsFor reg tcxo).rx with modulation := false, frequency := false } := rfl
+
+/-- **C14 for any radio kind that satisfies `OpsSpec`**: induction over the history. -/
+theorem history_ok {kind : Kind} {reg tcxo : Bool} {sb : Items} {Rdy : ChipTrack → Prop} {rk : RadioKindOps σ μ}
+    (S : OpsSpec kind reg tcxo sb Rdy rk) (h : List (ApiCall μ × Env)) (hwf : ∀ ce ∈ h, ce.1.wf)
+    (s : DriverState σ × World) (t : ChipTrack) (hinv : Inv reg tcxo sb s.1 t) :
+    ∀ e ∈ runTracked kind (needsFor reg tcxo) rk h s t, RecOk reg tcxo e := by
+  induction h generalizing s t with
+  | nil => simp [runTracked]
+  | cons ce rest ih =>
+    obtain ⟨c, env⟩ := ce
+    obtain ⟨d, w⟩ := s
+    have step := apiStep_inv S c (hwf _ (List.mem_cons_self ..)) env d w t hinv
+    intro e he
+    simp only [runTracked, List.mem_cons] at he
+    rcases he with rfl | he
+    · obtain ⟨i, i4⟩ := step
+      refine ⟨i.clean.1, ?_, i.clean.2, fun ht hc => (i4 ht hc).symm, ?_⟩
+      · intro hcov
+        cases hcs : (apiStep rk c env (d, w)).2.1.coldStart with
+        | true => rfl
+        | false =>
+          have hb : (baseItems reg tcxo).le (bringUp reg tcxo) := by simp [Items.le, bringUp]
+          have := (Items.covers_iff _ _).2 (Items.le_trans hb (i.cold hcs))
+          rw [this] at hcov
+          exact absurd hcov (by simp)
+      · intro hm
+        have := wrong_mode_refused rk c env d w hm
+        exact ⟨this.1, this.2.2⟩
+    · exact ih (fun ce hce => hwf ce (List.mem_cons_of_mem _ hce)) _ _ step.1 e he
+
+/-- **C14, SX126x** (SX1261 / SX1262 / STM32WL, with or without DC-DC regulator and TCXO): every
+history of API calls — any calls with well-formed parameters, any chip content and answers, any
+interrupt outcomes, a fault at any I/O step and a drop at any `await_irq` of every call — started in
+the constructor state satisfies I1–I5 after every call. -/
+theorem c14_invariants126 (cfg : Sx126x.Config) (sw : Nat) (w : World) (h : List (ApiCall Sx126x.ModulationParams × Env))
+    (hwf : ∀ ce ∈ h, ce.1.wf) :
+    ∀ e ∈ runTracked .sx126x (needsFor cfg.useDcdc cfg.tcxo.isSome) (sx126xOps cfg) h
+        ({ rk := (), syncWord := sw }, w) {}, RecOk cfg.useDcdc cfg.tcxo.isSome e :=
+  history_ok (Sx126x.opsSpec cfg) h hwf _ _ (inv_new _ _ _ _ _)
+
+/-- **C14, SX127x** (SX1276 / SX1272, any board configuration). -/
+theorem c14_invariants127 (cfg : Sx127x.Config) (d0 : Sx127x.Data) (sw : Nat) (w : World)
+    (h : List (ApiCall Sx127x.ModulationParams × Env)) (hwf : ∀ ce ∈ h, ce.1.wf) :
+    ∀ e ∈ runTracked .sx127x (needsFor false false) (sx127xOps cfg) h ({ rk := d0, syncWord := sw }, w) {},
+      RecOk false false e :=
+  history_ok (Sx127x.opsSpec cfg) h hwf _ _ (inv_new _ _ _ _ _)
+
+/-! ### the LoRaWAN adapter (`LorawanRadio`) over histories -/
+
+structure AdpRec (σ μ : Type) where
+  call : AdapterCall μ
+  before : DriverState σ
+  out : Out (AdapterResult × AdapterState)
+  after : DriverState σ
+  track : ChipTrack
+
+def runAdapter (kind : Kind) (n : Needs) (rk : RadioKindOps σ μ) :
+    List (AdapterCall μ × Env) → AdapterState → DriverState σ × World → ChipTrack → List (AdpRec σ μ)
+  | [], _, _, _ => []
+  | (c, env) :: rest, a, s, t =>
+    let r := adapterStep rk a c env s
+    let t' := track kind n t r.2.2.log
+    let a' := match r.1 with | .ok (_, a') => a' | _ => a
+    ⟨c, s.1, r.1, r.2.1, t'⟩ :: runAdapter kind n rk rest a' r.2 t'
+
+def AdpRecOk (reg tcxo : Bool) (e : AdpRec σ μ) : Prop :=
+  e.track.commandedAsleep = false ∧
+  (e.track.items.covers (baseItems reg tcxo) = false → e.after.coldStart = true) ∧
+  e.track.startedUnprogrammed = false ∧
+  (adapterTimeout e.out = true → e.before.radioMode ≠ .receive .continuous →
+    e.track.mode = .standby ∧ e.after.radioMode = .standby)
+
+theorem adapter_history_ok {kind : Kind} {reg tcxo : Bool} {sb : Items} {Rdy : ChipTrack → Prop} {rk : RadioKindOps σ μ}
+    (S : OpsSpec kind reg tcxo sb Rdy rk) (h : List (AdapterCall μ × Env)) (a : AdapterState)
+    (s : DriverState σ × World) (t : ChipTrack) (hinv : Inv reg tcxo sb s.1 t) :
+    ∀ e ∈ runAdapter kind (needsFor reg tcxo) rk h a s t, AdpRecOk reg tcxo e := by
+  induction h generalizing a s t with
+  | nil => simp [runAdapter]
+  | cons ce rest ih =>
+    obtain ⟨c, env⟩ := ce
+    obtain ⟨d, w⟩ := s
+    have step := adapterStep_inv S a c env d w t hinv
+    intro e he
+    simp only [runAdapter, List.mem_cons] at he
+    rcases he with rfl | he
+    · obtain ⟨i, i4⟩ := step
+      refine ⟨i.clean.1, ?_, i.clean.2, fun ht hc => (i4 ht hc).symm⟩
+      intro hcov
+      cases hcs : (adapterStep rk a c env (d, w)).2.1.coldStart with
+      | true => rfl
+      | false =>
+        have hb : (baseItems reg tcxo).le (bringUp reg tcxo) := by simp [Items.le, bringUp]
+        have := (Items.covers_iff _ _).2 (Items.le_trans hb (i.cold hcs))
+        rw [this] at hcov
+        exact absurd hcov (by simp)
+    · exact ih _ _ _ step.1 e he
+
+/-- **C14, the LoRaWAN adapter on both chip families**: after a successful `LoRa::new` or not — any
+state satisfying the invariant, in particular the constructor state followed by any API history —
+every history of `LorawanRadio` calls keeps I1–I4. -/
+theorem c14_adapter126 (cfg : Sx126x.Config) (sw : Nat) (w : World) (a : AdapterState)
+    (h : List (AdapterCall Sx126x.ModulationParams × Env)) :
+    ∀ e ∈ runAdapter .sx126x (needsFor cfg.useDcdc cfg.tcxo.isSome) (sx126xOps cfg) h a
+        ({ rk := (), syncWord := sw }, w) {}, AdpRecOk cfg.useDcdc cfg.tcxo.isSome e :=
+  adapter_history_ok (Sx126x.opsSpec cfg) h a _ _ (inv_new _ _ _ _ _)
+
+theorem c14_adapter127 (cfg : Sx127x.Config) (d0 : Sx127x.Data) (sw : Nat) (w : World) (a : AdapterState)
+    (h : List (AdapterCall Sx127x.ModulationParams × Env)) :
+    ∀ e ∈ runAdapter .sx127x (needsFor false false) (sx127xOps cfg) h a ({ rk := d0, syncWord := sw }, w) {},
+      AdpRecOk false false e :=
+  adapter_history_ok (Sx127x.opsSpec cfg) h a _ _ (inv_new _ _ _ _ _)
+
+/-- **C14 (full).**  I1–I5 over all histories, both chip families, API and adapter. -/
+theorem c14_invariants :
+    (∀ (cfg : Sx126x.Config) (sw : Nat) (w : World) (h : List (ApiCall Sx126x.ModulationParams × Env)),
+      (∀ ce ∈ h, ce.1.wf) →
+      ∀ e ∈ runTracked .sx126x (needsFor cfg.useDcdc cfg.tcxo.isSome) (sx126xOps cfg) h ({ rk := (), syncWord := sw }, w) {},
+        RecOk cfg.useDcdc cfg.tcxo.isSome e) ∧
+    (∀ (cfg : Sx127x.Config) (d0 : Sx127x.Data) (sw : Nat) (w : World) (h : List (ApiCall Sx127x.ModulationParams × Env)),
+      (∀ ce ∈ h, ce.1.wf) →
+      ∀ e ∈ runTracked .sx127x (needsFor false false) (sx127xOps cfg) h ({ rk := d0, syncWord := sw }, w) {},
+        RecOk false false e) ∧
+    (∀ (cfg : Sx126x.Config) (sw : Nat) (w : World) (a : AdapterState) (h : List (AdapterCall Sx126x.ModulationParams × Env)),
+      ∀ e ∈ runAdapter .sx126x (needsFor cfg.useDcdc cfg.tcxo.isSome) (sx126xOps cfg) h a ({ rk := (), syncWord := sw }, w) {},
+        AdpRecOk cfg.useDcdc cfg.tcxo.isSome e) ∧
+    (∀ (cfg : Sx127x.Config) (d0 : Sx127x.Data) (sw : Nat) (w : World) (a : AdapterState)
+      (h : List (AdapterCall Sx127x.ModulationParams × Env)),
+      ∀ e ∈ runAdapter .sx127x (needsFor false false) (sx127xOps cfg) h a ({ rk := d0, syncWord := sw }, w) {},
+        AdpRecOk false false e) :=
+  ⟨c14_invariants126, c14_invariants127, c14_adapter126, c14_adapter127⟩
+
+/-! ### the hypotheses are satisfiable, the statements are not vacuous -/
+
+/-- every call of the correspondence alphabet is well-formed (`listen` gets the `Ok` of `create_modulation_params`) -/
+example : ∀ ce ∈ ([(.init, {}), (.prepareForTx mod126 txPkt 14 [1, 2, 3], {}), (.tx, { irqDefault := 0x200 }),
+    (.listen 868100000 (.ok mod126), { fault := some 3 }), (.sleep false, {})] : List (ApiCall Sx126x.ModulationParams × Env)),
+    ce.1.wf := by
+  intro ce h
+  simp only [List.mem_cons, List.not_mem_nil, or_false] at h
+  rcases h with rfl | rfl | rfl | rfl | rfl <;> trivial
+
+/-- a `listen` that forwards `create_modulation_params`' error is well-formed too -/
+example : (ApiCall.listen 868100000 (.error .UnavailableBandwidth) : ApiCall Sx126x.ModulationParams).wf := rfl
+
+/-- the premise of I4 occurs: `tx` whose interrupt status says RxTxTimeout reports TransmitTimeout … -/
+example : (runTracked .sx126x needs126 ops126
+    [(.init, {}), (.prepareForTx mod126 txPkt 14 [1, 2, 3], {}), (.tx, { irqDefault := 0x200 })] start126 {}).map
+      (fun e => e.out.timeout) = [false, false, true] := by decide +kernel
+
+/-- … and the conclusion is about a real change of state (the chip was transmitting) -/
+example : (runTracked .sx126x needs126 ops126
+    [(.init, {}), (.prepareForTx mod126 txPkt 14 [1, 2, 3], {}), (.tx, { irqDefault := 0x200 })] start126 {}).map
+      (fun e => (e.track.mode, e.track.items.covers needs126.tx)) =
+      [(.standby, false), (.standby, true), (.standby, true)] := by decide +kernel
+
+/-- the premise of I2 occurs: after a cold sleep the SX126x has lost its configuration and the driver knows -/
+example : (runTracked .sx126x needs126 ops126 [(.init, {}), (.sleep false, {})] start126 {}).map
+      (fun e => (e.track.items.covers (baseItems true false), e.after.coldStart)) = [(true, false), (false, true)] := by
+  decide +kernel
+
+/-- the premise of I5 occurs: `tx` right after the constructor -/
+example : modeOk (ApiCall.tx : ApiCall Sx126x.ModulationParams) start126.1.radioMode = false := rfl
+
+/-- SX127x: a reception that times out (RxTimeout = 0x80) ends in standby on both sides -/
+example : (runTracked .sx127x needs127 ops127
+    [(.init, {}), (.prepareForRx (.single 13) mod127 rxPkt, {}), (.rx rxPkt 255, { irqDefault := 0x80 })] start127 {}).map
+      (fun e => (e.out.timeout, e.track.mode, e.after.radioMode)) =
+      [(false, .standby, .standby), (false, .standby, .receive (.single 13)), (true, .standby, .standby)] := by
+  decide +kernel
+
+#print axioms C14.wrong_mode_refused
+#print axioms C14.refused_calls_never_touch_the_chip
+#print axioms C14.fail_to_standby_spec126
+#print axioms C14.i4_standby_after_reported_failure126
+#print axioms C14.i4_standby_after_reported_failure127
+#print axioms C14.inv_new
+#print axioms C14.history_ok
+#print axioms C14.adapter_history_ok
+#print axioms C14.c14_invariants126
+#print axioms C14.c14_invariants127
+#print axioms C14.c14_adapter126
+#print axioms C14.c14_adapter127
+#print axioms C14.c14_invariants
+#print axioms Model.Phy.wp_sound
+#print axioms Model.Phy.apiStep_inv
+#print axioms Model.Phy.adapterStep_inv
+#print axioms Model.Phy.Sx126x.opsSpec
+#print axioms Model.Phy.Sx127x.opsSpec
 
 end C14
